@@ -222,14 +222,46 @@ theorem bind_str_eq_list (key : String) (hk : key = "bind" ∨ key = "insecure_b
     setattrNorm key (.str s) = setattrNorm key (.strs [s]) := by
   rcases hk with rfl | rfl | rfl <;> simp [setattrNorm, readOnly]
 
-/-- **all loaders funnel into `from_mapping`**: object / module / pyfile sources differ only by dropping dunder names -/
-theorem loaders_agree (attrs : List (String × Val)) (hnd : ∀ kv ∈ attrs, ¬ "__".isPrefixOf kv.1) :
-    fromObject attrs = fromMapping attrs := by
+/-- **what `from_object` drops** (re-decided against the current source through the extracted filter clauses): exactly
+    the dunder names and the module-valued attributes — a class (`logger_class`), a function or any other value is a setting
+    like every other and is handed to `from_mapping` -/
+theorem from_object_filter_spec (a : Attr) :
+    objKeeps a = (!("__".isPrefixOf a.name) && a.kind != .module) := by
+  cases hk : a.kind <;> cases hd : "__".isPrefixOf a.name <;>
+    simp [objKeeps, ConfigSites.fromObjectFilter, clauseKeeps, Attr.callable, hk, hd]
+
+/-- **all loaders funnel into `from_mapping`**: object / module / pyfile sources differ only by dropping dunder names and
+    imported modules, whatever the values are (classes and functions included) -/
+theorem loaders_agree (attrs : List Attr) (hnd : ∀ a ∈ attrs, ¬ "__".isPrefixOf a.name) (hnm : ∀ a ∈ attrs, a.kind ≠ .module) :
+    fromObject attrs = fromMapping (attrs.map (fun a => (a.name, a.val))) := by
   unfold fromObject
-  congr 1
+  congr 2
   rw [List.filter_eq_self]
-  intro kv hkv
-  simpa using hnd kv hkv
+  intro a ha
+  rw [from_object_filter_spec]
+  simp [hnd a ha, hnm a ha]
+
+/-- dunder names and modules imported into a configuration file never reach the configuration -/
+theorem from_object_drops (pre post : List Attr) (a : Attr) (h : "__".isPrefixOf a.name = true ∨ a.kind = .module) :
+    fromObject (pre ++ a :: post) = fromObject (pre ++ post) := by
+  have : objKeeps a = false := by
+    rw [from_object_filter_spec]
+    rcases h with h | h <;> simp [h]
+  simp [fromObject, List.filter_append, List.filter_cons, this]
+
+/-- **a callable setting is honoured by the object loaders too**: a class- or function-valued attribute (the case of
+    `logger_class`) supplied last through an object has the same effect as supplying it last through a mapping -/
+theorem from_object_callable_setting (attrs : List Attr) (k : String) (kind : AttrKind) (v : Val)
+    (hk : ¬ "__".isPrefixOf k) (hm : kind ≠ .module) :
+    fromObject (attrs ++ [⟨k, kind, v⟩]) =
+      fromMapping ((attrs.filter objKeeps).map (fun a => (a.name, a.val)) ++ [(k, v)]) := by
+  have : objKeeps ⟨k, kind, v⟩ = true := by
+    rw [from_object_filter_spec]
+    simp [hk, hm]
+  simp [fromObject, List.filter_append, List.filter_cons, this]
+
+example : fromObject [⟨"logger_class", .cls, .other "QuietLogger"⟩, ⟨"os", .module, .other "os"⟩, ⟨"__name__", .plain, .str []⟩] =
+    fromMapping [("logger_class", .other "QuietLogger")] := by decide +kernel
 
 /-- the effect of one more key: its own (normalised) attribute gets the (normalised) value, every other attribute
     keeps what it had -/
